@@ -150,9 +150,14 @@ CLAIMED["C05"] = dict(
          "finalize(fold update init) = the multi-hash definition, for mh_sha1 and mh_sha256; the model follows "
          "mh_sha1_update_base.c / _finalize_base.c statement by statement with the uint32/uint64 widths explicit. "
          "Tie: context (total, partial length, 16 interim digests) after every update and final digest for "
-         "base/sse/avx/avx2/avx512/public API. Found and fixed F18 (mh_sha256 wrong in the Makefile.unx build).",
-    note=_MH_NOTE, technique="Lean 4 proof over hand-written model + differential correspondence per family",
-    engine="MultiHash", ref="5 C05")
+         "base/sse/avx/avx2/avx512/public API. Found and fixed F18 (mh_sha256 wrong in the Makefile.unx build). T-route: all "
+         "10 instances of the update template (_mh_sha{1,256}_update_{base,sse,avx,avx2,avx512}) are regenerated from the "
+         "source (clang AST -> Gen/MhUpdate.lean) on every run and proved to advance total_length, call their own family's "
+         "block function on exactly the completed carried block and the whole blocks of the input, and stash exactly the "
+         "tail, for every context state and input (canon_mh_update, GenProps/MhUpdate.lean); the identification of that "
+         "specification (mhSpec) with the hand-written MhStream.update is by correspondence, not by proof.",
+    note=_MH_NOTE, technique="Lean 4 proof over hand-written model + Lean 4 proof over the translated update template + differential correspondence per family",
+    engine="MultiHash", ref="5 C05, 10.9")
 CLAIMED["C10"] = dict(
     text="Proof (Lean 4): for every seed, every partition of a stream < 2^32 bytes: the stitched finalize returns "
          "(mh_sha1 of the stream, MurmurHash3_x64_128 of the stream with both state words = seed); model follows "
@@ -168,8 +173,10 @@ CLAIMED["C08"] = dict(
          "whole blocks of the caller segment, GCM/XTS output exactly len bytes and tag_len tag bytes, rolling run "
          "offset <= max_len (C09_run). Decided by enumeration, not proof: accesses of the assembly kernels - every "
          "data/key/IV/tweak/tag/AAD buffer of every hash and AES family entry point placed flush against a PROT_NONE "
-         "page (end-flush and start-flush), canaries on the other side, incl. CBC len=0. Found and fixed F12; F5 (C09) "
-         "was also an over-read.",
+         "page (end-flush and start-flush), canaries on the other side, incl. CBC len=0; the multi-hash update buffers and "
+         "the rolling-hash run buffers likewise. T-route: hash_pad of the 23 SIMD-family context files never stores outside "
+         "padblock[0, 2B) (GenProps/HashPad.lean: the translated program has no out-of-range store for any total). "
+         "Found and fixed F12; F5 (C09) was also an over-read.",
     note="Trusted: Lean kernel + standard axioms; harness/guard.h. A wide vector load inside a kernel is invisible to "
          "the models: only the guard pages see it, for the length/alignment classes generated (not exhaustive in quick). "
          "Manager/context/key-data objects keep their alignment contracts and are covered by canaries only.",
